@@ -181,7 +181,10 @@ func refExec(s ast.Stmt) int {
 		}
 		return cNormal
 	case *ast.While:
-		for {
+		for it := 0; ; it++ {
+			if it > vpLimit {
+				verifAssume(false) // more iterations than the bound
+			}
 			v, failed := refEval(n.Condition)
 			if failed {
 				return cError
@@ -207,7 +210,10 @@ func refExec(s ast.Stmt) int {
 				return c
 			}
 		}
-		for {
+		for it := 0; ; it++ {
+			if it > vpLimit {
+				verifAssume(false) // more iterations than the bound
+			}
 			if n.Condition != nil {
 				v, failed := refEval(n.Condition)
 				if failed {
